@@ -6,18 +6,24 @@ import Xrl.Gen.Dispatch
 import Xrl.Spec.Dispatch
 open Xrl
 
-partial def loop (T : Tables Float) (h : IO.FS.Stream) (out : IO.FS.Stream) : IO Unit := do
+def vecOp (d : Dump) (a : Array String) : Option String :=
+  if a.size = 2 then
+    let v := (d.vecs a[0]!).getD (a[1]!.toNat!) FloatArray.empty
+    some ("vec " ++ " ".intercalate ((List.range v.size).map (fun i => fmtF (v.get! i))))
+  else none
+
+partial def loop (D : Dump) (T : Tables Float) (h : IO.FS.Stream) (out : IO.FS.Stream) : IO Unit := do
   let line ← h.getLine
   if line.isEmpty then return ()
   let t := (line.trimAscii.toString.splitOn " ").toArray
-  if t.size = 0 then loop T h out else
+  if t.size = 0 then loop D T h out else
   let fn := t[0]!
   let args := t.extract 1 t.size
-  let r := if fn.startsWith "spec." then dispatchSpec T fn args else dispatchGen T fn args
+  let r := if fn.startsWith "spec." then dispatchSpec T fn args else if fn == "vec" then vecOp D args else dispatchGen T fn args
   match r with
   | some s => out.putStrLn s
   | none => out.putStrLn "bad-op"
-  loop T h out
+  loop D T h out
 
 def main (argv : List String) : IO UInt32 := do
   match argv with
@@ -25,7 +31,7 @@ def main (argv : List String) : IO UInt32 := do
     let d ← readDump bin idx
     let T := Tables.ofDump d
     let out ← IO.getStdout
-    loop T (← IO.getStdin) out
+    loop d T (← IO.getStdin) out
     out.flush
     return 0
   | _ => IO.eprintln "usage: xrl-model dump.bin dump.idx"; return 2
